@@ -124,6 +124,8 @@ Inductive c19case :=
 | KAccess (v s : Qc) (u dst : uc) (value error : Qc) (rel : option Qc)
 (* arithmetic expression over shared variables; [blind] = Measurement class *)
 | KExpr (blind : bool) (V : list (positive * (Qc * Qc * uc))) (e : mexpr) (expected : exprres)
+(* measurement (v ± s) u  +/-  bare ufloat (bn ± bs); [swap]: bare operand on the left *)
+| KBare (sub swap : bool) (v s : Qc) (u : uc) (bn bs : Qc) (expected : exprres)
 (* join_unc *)
 | KJoin (sep lpar rpar m u expected : string).
 
@@ -219,6 +221,19 @@ Section WithReg.
             close rtol n (nom (m_mag m)) (nom B) &&
             close rtol v (variance E (m_mag m)) (variance E B) &&
             uc_eqb (m_units m) u
+        | Err x, EXErr y => bool_decide (ecls_of x = y)
+        | _, _ => false
+        end
+    | KBare sub swap v s u bn bs ex =>
+        let E : venv := {[ 1%positive := s; 2%positive := bs ]} in
+        let m := Meas (aff_var 1 v) u in
+        let b := aff_var 2 bn in
+        match meas_addsub_bare sub r E m b, ex with
+        | Ok z, EXOk n vr u' =>
+            let mg := if swap && sub then aff_affine (-1) 0 (m_mag z) else m_mag z in
+            let c := match conv_affine r u (m_units z) with Ok c => c | Err _ => (1, 0)%Qc end in
+            let B := aff_add (babs_conv r u (m_units z) c (Aff (Qcabs v) {[ 1%positive := 1%Qc ]})) (Aff (Qcabs bn) {[ 2%positive := 1%Qc ]}) in
+            close rtol n (nom mg) (nom B) && close rtol vr (variance E mg) (variance E B) && uc_eqb (m_units z) u'
         | Err x, EXErr y => bool_decide (ecls_of x = y)
         | _, _ => false
         end
